@@ -1152,6 +1152,12 @@ def pure_ext(it, dotted, args, kw, n):
             inner = [it.iterate(x) for x in outer]
             if all(l is not None for l in inner):
                 return ListV([x for l in inner for x in l])
+    if dotted in ('hmac.compare_digest', 'secrets.compare_digest', '_operator._compare_digest', 'operator._compare_digest') and len(args) == 2:
+        # equality of two byte strings / ASCII texts (in constant time - timing is not modelled); other types are a TypeError
+        for x in args:
+            if isinstance(x, (ListV, DictV, SetV, Inst, PInt)) or (isinstance(x, K) and not isinstance(x.v, (bytes, bytearray, str))):
+                raise RaiseEx('TypeError', 'unsupported operand types(s) or combination of types')
+        return it.cmp(ast.Eq(), args[0], args[1], n)
     if dotted in ('itertools.count',) and all(isinstance(a, K) and isinstance(a.v, int) for a in args) and not kw:
         return CountStream(*[a.v for a in args])
     if dotted in ('itertools.islice',) and isinstance(args[0], CountStream) and all(isinstance(a, K) for a in args[1:]):
